@@ -24,7 +24,7 @@ ASSUMPTIONS = [
 REQUIRED = {"eval.post": 1000, "checked_results": 300}
 MIN_NONTRIVIAL = {"quick": 12, "thorough": 20}
 PLAN = [("init", 700, 9000), ("loop", 700, 9000), ("degenerate", 300, 3000),
-        ("placed", 300, 3000), ("cross", 300, 6000),
+        ("placed", 900, 5000), ("cross", 300, 6000),
         ("budget_before", 120, 1500)]
 NEED_STATUS = (0, 1, 2, 3, 4, 5, 6, -1)
 
